@@ -1466,3 +1466,23 @@ _C07_CH = "        # Add \"backward pointing\" edges\n        for j in range(i, 
 V("rf-c07-chain-vectorised", "C07", "silent", UT, _C07_CH, "        backward = np.arange(1, i + 1)\n        A[backward, backward - 1] = 1\n        forward = np.arange(i, p - 1)\n        A[forward, forward + 1] = 1\n", what="index-array stores instead of the two inner loops")
 V("rf-c07-chain-vectorised-gap", "C07", "fire", UT, _C07_CH, "        backward = np.arange(1, i + 1)\n        A[backward, backward - 1] = 1\n        forward = np.arange(i + 1, p - 1)\n        A[forward, forward + 1] = 1\n", rule="CHAIN.partition", what="vectorised form leaves out the edge i -> i+1")
 V("rf-c07-vs-set-comprehension", "C07", "silent", UT, _C16_VS + "    return set(vstructs)\n", "    return {(i, c, j) if i < j else (j, c, i)\n            for c in colliders\n            for (i, j) in itertools.combinations(pa(c, A), 2)\n            if A[i, j] == 0 and A[j, i] == 0}\n", what="set comprehension")
+
+# ------------------------------------------------------------------------------- generator helpers feeding a loop; hand-kept counters (refactor rounds 1 / 2)
+_C17_GEN_BODY = "        start = 0\n" + _C17_LOOP
+
+
+def _c17_gen(cond="i < n_folds - 1", adv="            start += fold_size\n", consume="        for i, fold_slice in enumerate(_fold_slices(n, ratios)):\n            folds[i].append(sample[fold_slice])\n"):
+    helper = ("\n\ndef _fold_slices(n, ratios):\n    n_folds = len(ratios)\n    start = 0\n    for i, ratio in enumerate(ratios):\n        if %s:\n            fold_size = round(n * ratio)\n"
+              "            yield slice(start, start + fold_size)\n%s        else:\n            yield slice(start, None)\n\n\ndef sorted_tuple(iterable):\n" % (cond, adv))
+    return [(UT, _C17_GEN_BODY, consume), (UT, "\n\ndef sorted_tuple(iterable):\n", helper)]
+
+
+_e = _c17_gen()
+V("rf-c17-generator-helper", "C17", "silent", *_e[0], more=_e[1:], what="fold boundaries yielded by a private generator")
+_e = _c17_gen(cond="i < n_folds - 2")
+V("rf-c17-generator-helper-last-two", "C17", "fire", *_e[0], more=_e[1:], rule="LAST", what="generator form, remainder taken by the last two folds")
+_e = _c17_gen(adv="")
+V("rf-c17-generator-helper-no-advance", "C17", "fire", *_e[0], more=_e[1:], rule="CONTIG", what="generator form, cursor never advances")
+V("rf-c17-manual-counter", "C17", "silent", UT, "        for i, ratio in enumerate(ratios):\n", "        i = -1\n        for ratio in ratios:\n            i += 1\n", what="index kept by hand, incremented first", accept_inconclusive=True)
+V("rf-c17-manual-counter-after", "C17", "silent", UT, "        start = 0\n        for i, ratio in enumerate(ratios):\n", "        start = 0\n        i = 0\n        for ratio in ratios:\n",
+  more=[(UT, "            folds[i].append(fold_sample)\n", "            folds[i].append(fold_sample)\n            i += 1\n")], what="index kept by hand, incremented at the end of the body")
